@@ -294,15 +294,15 @@ theorem toArray_inj_int {a b : List Int} (h : a.toArray = b.toArray) : a = b := 
   simpa using this
 
 /-- "not enough letters" needs at least 27 pseudoknotted pairs -/
-theorem c2wMain_fewpk (n : Nat) (ct : List Nat) (hct : CtOk n ct) :
+theorem c2wMain_fewpk (simple : Bool) (n : Nat) (ct : List Nat) (hct : CtOk n ct) :
     ∀ (fuel j : Nat) (pda : List Int) (st : C2W) (cct : List Nat) (rb : List Int) (p : Bytes),
-      j ≤ n + 1 → 1 ≤ j → GInv n ct j pda st cct rb → UInv ct cct st.ss rb →
-      c2wMain false ct.toArray n fuel j pda st = .error (.einvalLetters p) → 27 ≤ (pkPairs ct).length := by
+      j ≤ n + 1 → 1 ≤ j → GInv n ct j pda st cct rb → (simple = true → ∀ a ∈ pda, 0 ≤ a) → UInv ct cct st.ss rb →
+      c2wMain simple ct.toArray n fuel j pda st = .error (.einvalLetters p) → 27 ≤ (pkPairs ct).length := by
   intro fuel
   induction fuel with
-  | zero => intro j pda st cct rb p _ _ _ _ h; simp only [c2wMain] at h; cases h
+  | zero => intro j pda st cct rb p _ _ _ _ _ h; simp only [c2wMain] at h; cases h
   | succ fuel ih =>
-    intro j pda st cct rb p hju hj1 inv u h
+    intro j pda st cct rb p hju hj1 inv hnm u h
     unfold c2wMain at h
     by_cases hend : j > n
     · rw [if_pos hend] at h; cases h
@@ -313,23 +313,23 @@ theorem c2wMain_fewpk (n : Nat) (ct : List Nat) (hct : CtOk n ct) :
     simp only [Int.toNat_natCast] at h
     by_cases h0 : cct.getD j 0 = 0
     · simp only [h0, beq_self_eq_true, if_true] at h
-      exact ih (j+1) _ st cct rb p (by omega) (by omega) (ginv_push hct inv hj1 (Or.inl h0)) u h
+      exact ih (j+1) _ st cct rb p (by omega) (by omega) (ginv_push hct inv hj1 (Or.inl h0)) (nomark_push j hnm) u h
     · have hb : (cct.getD j 0 == 0) = false := by rw [beq_eq_false_iff_ne]; exact h0
       simp only [hb, Bool.false_eq_true, if_false] at h
       by_cases hleft : j < cct.getD j 0
       · rw [if_pos hleft] at h
-        exact ih (j+1) _ st cct rb p (by omega) (by omega) (ginv_push hct inv hj1 (Or.inr hleft)) u h
+        exact ih (j+1) _ st cct rb p (by omega) (by omega) (ginv_push hct inv hj1 (Or.inr hleft)) (nomark_push j hnm) u h
       · rw [if_neg hleft] at h
-        obtain ⟨above, below, hsplit, habove, hitems, hitsorted, hstep⟩ := ginv_right_end n ct hct inv hj1 hjn h0 hleft
+        obtain ⟨above, below, hsplit, habove, hitems, hitsorted, hstep⟩ := ginv_right_end simple n ct hct inv hnm hj1 hjn h0 hleft
         have hsj := cct_sym hct inv.cok j h0
         split at h
         · rename_i err herr
           exfalso
           rw [hsplit] at herr
-          exact popLoopG_noerr n ct cct hct.1 inv.cok.len j (cct.getD j 0) below ⟨hj1, hjn⟩ ⟨hsj.2.2.2.2.1, by omega⟩ hsj.2.1
-            above 0 (-1) st err habove (by omega) (by omega) inv.hcct inv.sssize (by rw [inv.noaux]; simp) herr
+          exact popLoop_noerrB simple n ct cct hct.1 inv.cok.len j (cct.getD j 0) below above ⟨hj1, hjn⟩ ⟨hsj.2.2.2.2.1, by omega⟩ hsj.2.1
+            st err habove (fun hs a ha => hnm hs a (by rw [hsplit]; simp [ha])) inv.hcct inv.sssize inv.noaux herr
         · rename_i res hres
-          obtain ⟨hfound, hcct1, hpk1, ⟨hreach1, hsz1, hrb1, hcells⟩, mf', hpda1, hnext⟩ := hstep res hres
+          obtain ⟨hfound, hcct1, hpk1, ⟨hreach1, hsz1, hrb1, hcells⟩, hd, hpda1, _, hhds, hnext⟩ := hstep res hres
           obtain ⟨found, pda1, st1⟩ := res
           simp only at hfound hcct1 hpk1 hpda1 hnext h hreach1 hsz1 hrb1 hcells
           subst hfound hpda1
@@ -399,31 +399,37 @@ theorem c2wMain_fewpk (n : Nat) (ct : List Nat) (hct : CtOk n ct) :
                 have e1 : cct' = zeroPairs ct (pkOfAbove cct above).reverse cct := toArray_inj_nat (inv'.hcct.symm.trans hs.2)
                 have e2 : rb' = rb2 := toArray_inj_int (inv'.hrb.symm.trans hrb2)
                 rw [e1, e2]; exact u2
-            exact ih (j+1) (mf' :: below) st2 cct' rb' p (by omega) (by omega) inv' u2 h
+            exact ih (j+1) (hd ++ below) st2 cct' rb' p (by omega) (by omega) inv' (nomark_next (hsplit ▸ hnm) hhds) u2 h
 
-/-- SUFFICIENT CONDITION: a symmetric table with at most 26 pseudoknotted pairs is always converted -/
-theorem ct2wuss_ok_of_few' (n : Nat) (ct : List Nat) (hct : CtOk n ct) (hfew : (pkPairs ct).length ≤ 26) :
-    ∃ ss, ct2wuss ct = .ok ss := by
-  rcases ct2wuss_total' n ct hct with h | ⟨p, hp⟩
+/-- SUFFICIENT CONDITION: a symmetric table with at most 26 pseudoknotted pairs is always converted
+    (by `esl_ct2wuss` and by `esl_ct2simplewuss`) -/
+theorem ct2wussGen_ok_of_few (simple : Bool) (n : Nat) (ct : List Nat) (hct : CtOk n ct) (hfew : (pkPairs ct).length ≤ 26) :
+    ∃ ss, ct2wussGen simple ct = .ok ss := by
+  rcases ct2wussGen_total simple n ct hct with h | ⟨p, hp⟩
   · exact h
   · exfalso
     have hl1 : ct.length = n + 1 := hct.1
     have hn1 : ct.length - 1 = n := by omega
-    unfold ct2wuss ct2wussGen at hp
+    unfold ct2wussGen at hp
     simp only at hp
     rw [hn1] at hp
     split at hp
     · rename_i e he
       injection hp with hp; subst hp
-      have hu : UInv ct ct (Array.replicate n (0x3a : UInt8)) (List.replicate 26 (-1)) := {
+      have hu : UInv ct ct (Array.replicate n (if simple = true then (0x2e : UInt8) else 0x3a)) (List.replicate 26 (-1)) := {
         used := by
           intro x hx hge
           have : (List.replicate 26 (-1 : Int)).getD x 0 = -1 := by
             rw [List.getD_eq_getElem?_getD, List.getElem?_replicate, if_pos hx]; rfl
           rw [this] at hge; omega
         cross := by intro q h1 h2 h3; omega }
-      have := c2wMain_fewpk n ct hct (n+1) 1 [] _ ct _ p (by omega) (Nat.le_refl _) (ginv_init n ct hct) hu he
+      have := c2wMain_fewpk simple n ct hct (n+1) 1 [] _ ct _ p (by omega) (Nat.le_refl _) (ginv_init simple n ct hct)
+        (fun _ a ha => by simp at ha) hu he
       omega
     · split at hp <;> cases hp
+
+theorem ct2wuss_ok_of_few' (n : Nat) (ct : List Nat) (hct : CtOk n ct) (hfew : (pkPairs ct).length ≤ 26) :
+    ∃ ss, ct2wuss ct = .ok ss :=
+  ct2wussGen_ok_of_few false n ct hct hfew
 
 end EaselModel.Msa
